@@ -17,7 +17,7 @@ from .. import e1
 from .. import model as M
 from ..codec import src, unsrc
 from ..common import safe_repr
-from ..runner import Acc, parallel
+from ..runner import Acc, parallel, parallel_fresh
 from ..terms import E, fp, show, subterms, try_build
 from ..universe import INT, NONE, S, STR, call, ln, universe, wrap
 
@@ -134,11 +134,16 @@ def all_cases(tier):
     return cases
 
 
-def worker(shard, nshards, tier, seed):
+def worker(shard, nshards, tier, seed, mode="shard"):
     acc = Acc()
     OPS[0] = 0
     cases = all_cases(tier)
-    for i in range(shard, len(cases), nshards):
+    order = list(range(shard, len(cases), nshards))
+    if mode == "one-process":
+        # every schema printed in ONE process, forwards then backwards: whatever the representor
+        # keeps between calls meets every other schema, in both orders of first encounter
+        order = list(range(len(cases))) + list(range(len(cases) - 1, -1, -1))
+    for i in order:
         tag, x = cases[i]
         if tag == "term":
             s, err = try_build(x)
@@ -175,6 +180,9 @@ def worker(shard, nshards, tier, seed):
 
 def run(tier, seed):
     acc = parallel(worker, tier, seed, warm_pass=True)
+    one = parallel_fresh(worker, tier, seed, nshards=1, extra=("one-process",))
+    one.n = type(one.n)({"one_process:" + k: c for k, c in one.n.items()})
+    acc.merge(one)
     cov = {
         "states": acc.n["schemas"],
         "transitions": acc.n["operations"],
@@ -185,6 +193,7 @@ def run(tier, seed):
                 "declaration graphs; each schema is distinct by construction (fp-deduplicated for E1)",
         "exhaustive": True,
         "bounds": {"tier": tier, "e1_chain_length": E1_LEN[tier]},
+        "one_process_pass": {"schemas_forwards_and_backwards": acc.n["one_process:schemas"]},
     }
     return acc, cov, ["layout is not compared, only structure, equality and re-printing",
                       "schemas carrying inf/nan are skipped (Python's own repr is not a literal)"]
